@@ -37,7 +37,7 @@ def write(mod, prop_id, tier, seed, rec, wall, n_viol, enabled, corpus_n=0, shar
         "property_id": prop_id,
         "tier": tier,
         "seed": int(seed),
-        "level": "exploration",
+        "level": getattr(mod, "LEVEL", "exploration"),
         "coverage": cov,
         "assumptions": list(getattr(mod, "ASSUMPTIONS", [])),
         "wall_s": round(float(wall), 2),
